@@ -1,7 +1,7 @@
 """The component alphabet of the declaration language, declaration enumeration, feature scan, inputs."""
 import itertools
 
-from mc.ir import (PKT, I, D, DM, DR, DEOS, B, R, RS, S, O, EM, pos, F, C, BIN, PV, subpackets)
+from mc.ir import (PKT, I, D, DM, DR, DEOS, B, R, RS, S, O, EM, U, pos, F, C, BIN, PV, subpackets)
 
 SUB = PKT('Sub', [('x', I(1)), ('y', D(F('x')))])
 PT = PKT('Pt', [('x', I(1)), ('y', I(1, default=2))])
@@ -30,6 +30,12 @@ def components():
     add('i2d', lambda i: [('a%d' % i, I(2, default=0x4142))])
     add('i4', lambda i: [('a%d' % i, I(4))], 'big')
     add('i5ls', lambda i: [('a%d' % i, I(5, signed=True, end='little'))], 'big')
+    # ---- a user-defined field (no struct code: it splits runs; its values are strings)
+    add('u3', lambda i: [('u%d' % i, U(3))])
+    add('u1d', lambda i: [('u%d' % i, U(1, default='7f'))])
+    add('su2', lambda i: [('n%d' % i, I(1)), ('l%d' % i, S(U(2), F('n%d' % i)))])
+    add('ou1', lambda i: [('t%d' % i, I(1)), ('o%d' % i, O(U(1), F('t%d' % i)))])
+    add('pu2', lambda i: [('u%d' % i, pos(U(2), 'at', C(2)))])
     # ---- byte strings
     add('d2', lambda i: [('d%d' % i, D(C(2)))])
     add('d0', lambda i: [('d%d' % i, D(C(0)))])
@@ -299,7 +305,7 @@ def boundary_specs(sizes=(255, 256, 257), wrappers='ab', cut=True):
     return specs
 
 # one representative per mechanism, used for pairs in the quick tier and triples in the thorough tier
-REDUCED = ['i1', 'i2l', 'i3', 'dn', 'dx', 'm0', 'mab', 'rx', 'rxlb', 'b35', 'r1', 'rs', 'rst', 'sn', 'ss', 'su', 'suo', 'sua', 'sw', 'sa', 'sr', 'o1', 'oz', 'os', 'or', 'eb1',
+REDUCED = ['i1', 'i2l', 'i3', 'dn', 'dx', 'm0', 'mab', 'rx', 'rxlb', 'b35', 'r1', 'rs', 'rst', 'sn', 'ss', 'su', 'suo', 'sua', 'sw', 'sa', 'sr', 'o1', 'oz', 'os', 'or', 'eb1', 'u3',
            'p_at3', 'p_atn', 'p_shm1', 'p_shm2d', 'p_al2', 'p_al3', 'p_al4i', 'p_em4', 'p_d0', 'eos']
 
 
